@@ -125,6 +125,21 @@ def run(b, ps, tier, seed):
     violations += v2
     v3, ncorpus = TS.corpus_check(b, PROP, "wf", TS.proj_c16)
     violations += v3
+    # the places where the CHECKER completes an unannotated type (cut annotations on calls and on direct terms, signatures,
+    # process types, shifts at the root, re-binding cuts): verdict and the modes written into the annotated program, real
+    # checker against the model, on the mode families of lib/vlib/declshapes.py
+    ntc = 0
+    if impl and not b.probe_error and not b.model_error:
+        from .. import declshapes as DS
+        from .. import suite as S
+        tcases = [(i, k, t) for i, k, t in DS.fam_modes()]
+        ntc = len(tcases)
+        ti, tm, tmis = S.correspond(b, "tc", tcases, timeout=900)
+        for i, k, t, a, m in tmis[:3]:
+            violations.append(C.Violation(
+                "the checker completes the modes of %s differently from the model: %s vs %s" % (i, a[:60], m[:60]),
+                {"property": PROP, "kind": "checker-mode-completion", "input_text": t, "input_hex": t.encode("latin1").hex(),
+                 "implementation": a[:400], "model": m[:400]}))
     nperm = nann = 0
     nondet = 0
     if impl:
